@@ -430,6 +430,46 @@ example : firstMEnd [sL "t\n", sL "M  END\n"] = some 2 ∧
     WFBlock 100 ([sL "t\n", sL "M  END\n"] ++ [sL ">  <k>\n", sL "M  END\n", sL "\n"]) :=
   ⟨by decide, ⟨by decide, by decide, by decide⟩⟩
 
+/-- **esdf_mend_unaffected_by_data** (V3000 records): for **every** molecule the V3000 writer accepts (no further
+    well-formedness needed) whose title does not start with `M  END`, the lines `ESDFWrite.write` emits before the data
+    items, followed by arbitrary lines `ml`: `__m_end` is the block's own `M  END` line, `_read_mol` returns exactly the
+    written block and `_read_metadata` exactly `ml` -/
+theorem esdf_mend_unaffected_by_data (mapping : Bool) (g : WMol) (ls ml : List Str)
+    (hw : writeMol3000 mapping g = .ok ls) (hname : isMEnd (g.name ++ sL "\n") = false) :
+    let block := v3Header g.name ++ ls ++ sL "M  END\n" :: ml
+    firstMEnd block = some ((v3Header g.name ++ ls).length + 1) ∧
+    blockMol ⟨block, firstMEnd block⟩ = .ok (v3Header g.name ++ ls ++ [sL "M  END\n"]) ∧
+    blockMeta ⟨block, firstMEnd block⟩ = .ok ml := by
+  intro block
+  have hfm : firstMEnd block = some ((v3Header g.name ++ ls).length + 1) := esdf_mend_any_data mapping g ls ml hw hname
+  refine ⟨hfm, ?_, ?_⟩
+  · simp only [blockMol, hfm, pure, Except.pure, block]
+    congr 1
+    rw [show v3Header g.name ++ ls ++ sL "M  END\n" :: ml = (v3Header g.name ++ ls ++ [sL "M  END\n"]) ++ ml by simp]
+    rw [List.take_left' (by simp; omega)]
+  · simp only [blockMeta, hfm, pure, Except.pure, block]
+    congr 1
+    rw [show v3Header g.name ++ ls ++ sL "M  END\n" :: ml = (v3Header g.name ++ ls ++ [sL "M  END\n"]) ++ ml by simp]
+    rw [List.drop_left' (by simp; omega)]
+
+example : (writeMol3000 true exampleMol).toBool = true := by decide +kernel
+
+/-- **sdf_value_line_sep_cuts_record** (outside the domain, reported as known finding
+    `C11/meta/SDF/value-line-starts-with-$$$$`): if a value contains a line `v` starting with `$$$$`, the record the
+    reader sees ends right before `v`: MOL lines, the data header and the value lines `pre` before `v`; the lines after `v`
+    (rest of the value, the real delimiter, the following records) start the next record. Nothing is raised. -/
+theorem sdf_value_line_sep_cuts_record (bufSize : Nat) (ls : List Str) (k : Str) (pre : List Str) (v : Str)
+    (after : List Str) (hv : isSep (v ++ ['\n']) = true)
+    (hwf : WFBlock bufSize (ls ++ (sL ">  <" ++ k ++ sL ">\n") :: pre.map (· ++ ['\n']))) :
+    readBlock bufSize (ls ++ (sL ">  <" ++ k ++ sL ">\n") :: pre.map (· ++ ['\n']) ++ (v ++ ['\n']) :: after) =
+      .ok (⟨ls ++ (sL ">  <" ++ k ++ sL ">\n") :: pre.map (· ++ ['\n']),
+            firstMEnd (ls ++ (sL ">  <" ++ k ++ sL ">\n") :: pre.map (· ++ ['\n']))⟩, after) :=
+  readBlock_cut_at_sep bufSize _ (v ++ ['\n']) after hv hwf
+
+example : isSep (sL "$$$$ not a delimiter" ++ ['\n']) = true ∧
+    WFBlock 100 ([sL "t\n", sL "M  END\n"] ++ (sL ">  <" ++ sL "k" ++ sL ">\n") :: [sL "line1"].map (· ++ ['\n'])) :=
+  ⟨by decide, ⟨by decide, by decide, by decide⟩⟩
+
 /-- **sdf_record_normalised_roundtrip**: whole SD record on the specification's domain: molecule (`WFMol`), atom numbers
     and the normalised dictionary come back from the lines `SDFWrite.write` emitted -/
 theorem sdf_record_normalised_roundtrip (g : WMol) (h : WFMol g) (md : Meta) (hmd : sdMetaOk md = true)
